@@ -188,22 +188,78 @@ def rule_done(F, R):
         for i in g.inits:
             if i.get("c") and any(is_call(y, "std::numeric_limits::max") or is_call(y, "std::numeric_limits::lowest") for y in walk(i)):
                 sentinels.add(i.get("n"))
-    empty = [n_ for n_ in f.nodes() if n_["k"] == "if" and pp(n_["c"][n_["r"].index("cond")]) in ("(N == 0)", "(0 == N)")]
-    if sentinels:
-        got0 = {}
-        for n_ in empty:
-            for s_ in walk(n_["c"][n_["r"].index("then")]):
-                a = assignment(s_)
-                if a:
-                    for y in walk(a[0]):
-                        if y["k"] == "mem" and y.get("fd"):
-                            got0[y["n"]] = literal_value(a[1])
-                            break
-        missing = sorted(x for x in sentinels if got0.get(x) != 0)
-        R.check(bool(empty) and not missing, "R-C14-7", "all-missing column", f.loc(empty[0]) if empty else f.loc(),
-                "for a column without finite values the sentinel-initialised statistics %s are reset to 0" % sorted(sentinels),
-                "a column without finite values keeps the constructor's sentinel in %s (min/max = +-1.8e308): minmax scaling of any later finite value "
-                "absorbs it and up-scaling returns 0 / inf" % missing)
+    # the finaliser is followed per sample count: N = 0 (nothing seen: the sentinels must go), N = 1 (the single value must stay: min = max =
+    # mean = it) - the assignments executed on the path that N selects, conditions on N evaluated concretely
+    loops = [x for x in f.nodes() if x["k"] == "for"]
+    body = loops[0]["c"][loops[0]["r"].index("body")] if loops else None
+
+    def cval(n_, env):
+        n_ = skip(n_)
+        while n_["k"] in ("cast", "paren") and n_.get("c"):
+            n_ = skip(n_["c"][0])
+        if n_["k"] == "int":
+            return n_["v"]
+        if n_["k"] == "ref" and n_.get("d") in env:
+            return env[n_["d"]]
+        if n_["k"] == "un" and n_.get("op") == "!":
+            v = cval(n_["c"][0], env)
+            return None if v is None else (not v)
+        if n_["k"] == "bin" and n_["op"] in ("<", "<=", "==", "!=", "&&", "||"):
+            u, v = cval(n_["c"][0], env), cval(n_["c"][1], env)
+            if u is None or v is None:
+                return None
+            return {"<": u < v, "<=": u <= v, "==": u == v, "!=": u != v, "&&": bool(u) and bool(v), "||": bool(u) or bool(v)}[n_["op"]]
+        return None
+
+    def path(st, env, out):
+        if st is None:
+            return True
+        k = st["k"]
+        if k == "block":
+            return all(path(c_, env, out) for c_ in st.get("c", ()))
+        if k == "if":
+            r = st["r"]
+            if "init" in r and st["c"][r.index("init")] is not None:
+                for v in walk(st["c"][r.index("init")]):
+                    if v["k"] == "var" and v.get("c") and "m_samples" in pp(v["c"][0]):
+                        env[v["d"]] = env["N"]
+            cnd = st["c"][r.index("cond")]
+            if "enable_scaling" in pp(cnd):
+                return True         # the categorical mask (R-C14-4)
+            v = cval(cnd, env)
+            if v is None:
+                return False
+            br = st["c"][r.index("then")] if v else (st["c"][r.index("else")] if "else" in r else None)
+            return path(br, env, out)
+        if k == "declstmt":
+            for v in st.get("c", ()):
+                if v is not None and v["k"] == "var" and v.get("c") and "m_samples" in pp(v["c"][0]):
+                    env[v["d"]] = env["N"]
+            return True
+        a_ = assignment(st)
+        if a_:
+            for y in walk(a_[0]):
+                if y["k"] == "mem" and y.get("fd"):
+                    out.setdefault(y["n"], []).append((a_[2], a_[1]))
+                    break
+        return True
+    if sentinels and body is not None:
+        for N, label in ((0, "all-missing column"), (1, "single-sample column")):
+            out = {}
+            if not path(body, {"N": N}, out):
+                R.incomplete("R-C14-7", label, f.loc(), "cannot follow the finaliser for N = %d" % N)
+                continue
+            if N == 0:
+                missing = sorted(x for x in sentinels if not (out.get(x) and out[x][-1][0] == "=" and literal_value(out[x][-1][1]) == 0))
+                R.check(not missing, "R-C14-7", label, f.loc(), "for a column without finite values the sentinel-initialised statistics %s are reset to 0" % sorted(sentinels),
+                        "a column without finite values keeps the constructor's sentinel in %s (min/max = +-1.8e308): minmax scaling of any later finite value "
+                        "absorbs it and up-scaling returns 0 / inf" % missing)
+            else:
+                lost = sorted(x for x in ("m_min", "m_max", "m_mean") if out.get(x))
+                R.check(not lost, "R-C14-7", label, f.loc(), "a column with one finite value keeps it as its minimum, maximum and mean",
+                        "for a column with exactly one finite value v the finaliser overwrites %s (`%s`): update() had stored min = max = sum = v, now the statistics describe "
+                        "another column - mean / minmax / standard scaling leave the value at v instead of 0 (the advertised mean / range)" % (
+                            lost, "; ".join("%s %s %s" % (x, out[x][-1][0], pp(out[x][-1][1])[:20]) for x in lost)))
 
     # R-C14-4: the categorical mask branch resets all eight statistics to the identity
     want = {"m_min": 0, "m_max": 0, "m_mean": 0, "m_stdev": 0, "m_div_range": 1, "m_div_stdev": 1, "m_mul_range": 1, "m_mul_stdev": 1}
